@@ -108,6 +108,11 @@ CORPUS = [
     ["MKD x/y", "RMD x", "RMD x/y", "RMD x"],
     ["MKD f.txt/z", "MKD d/g.txt/q/r"],
     ["DELE d", "RMD f.txt", "RMD d"],
+    # a destination below a SIBLING whose name begins with the source's name: not "into itself"
+    ["MKD d.old", "RNFR d", "RNTO d.old/d", "LIST d.old/d", "RETR d.old/d/g.txt"],
+    ["MKD ee", "RNFR e", "RNTO ee/e", "MLSD ee"],
+    ["MKD f.txt.bak", "RNFR f.txt", "RNTO f.txt.bak/f.txt", "RETR f.txt.bak/f.txt"],
+    ["MKD d/su", "RNFR d/su", "RNTO d/sub/su", "MLSD d/sub"],
 ]
 
 
